@@ -13,6 +13,10 @@ use serde::Deserialize;
 use serde::Serialize;
 
 pub fn init(level: &str) -> Result<()> {
+    #[cfg(octo_squirrel_verif)]
+    if crate::verif::proc::skip_log_init() {
+        return Ok(());
+    }
     let mut path = std::env::current_exe().expect("Can't get the current exe path");
     path.pop();
     path.push("log4rs.yaml");
